@@ -224,6 +224,71 @@ theorem writeTpl_keyword (a k b : Bytes) (params : List Bytes) (helpers override
   simp only [writeTpl, writeTpl.go, if_true, List.headD_cons, List.nil_append, List.drop_one, List.tail_cons, List.append_nil]
   cases lookupKV overrides k <;> simp
 
+/-! ## keys accepted by `assign` are addressable by `map` -/
+
+theorem splitOn_no_sep (sep : UInt8) (s : Bytes) (h : sep ∉ s) : splitOn sep s = [s] := by
+  induction s with
+  | nil => rfl
+  | cons c cs ih =>
+    have hc : (c == sep) = false := by
+      simp only [beq_eq_false_iff_ne, ne_eq]; intro e; exact h (by simp [e])
+    have := ih (fun hm => h (by simp [hm]))
+    simp [splitOn, hc, this]
+
+theorem takeWhile_ne_of_not_mem (x : UInt8) (s : Bytes) (h : x ∉ s) : s.takeWhile (· ≠ x) = s := by
+  induction s with
+  | nil => rfl
+  | cons c cs ih =>
+    have hc : c ≠ x := fun e => h (by simp [e])
+    have ih' := ih (fun hm => h (by simp [hm]))
+    simp only [List.takeWhile_cons, ne_eq, hc, not_false_eq_true, decide_true, if_true]
+    rw [ih']
+
+/-- a key accepted by `url_mapper::assign(key,url)` (and free of NUL, `map` takes a C string) is read by
+`get_mapper_for_key` as itself: no navigation, no keywords -/
+theorem mapperForKey_valid (p : MPos) (key : Bytes) (hv : keyValid key = true)
+    (hslash : (47 : Nat) ∈ Gen.keyForbiddenChars) (hsemi : (59 : Nat) ∈ Gen.keyForbiddenChars)
+    (hdot : [46] ∈ Gen.keyForbiddenWords) (hdotdot : [46, 46] ∈ Gen.keyForbiddenWords) :
+    mapperForKey p key =
+      match isApp p.cur key with
+      | some c => .ok (⟨c, (p.cur, key) :: p.up⟩, [], [])
+      | none => .ok (p, key, []) := by
+  unfold keyValid at hv
+  simp only [Bool.not_eq_true', Bool.or_eq_false_iff] at hv
+  obtain ⟨⟨hne, hchars⟩, hwords⟩ := hv
+  have h47 : (47 : UInt8) ∉ key := by
+    intro hm
+    have : key.any (fun c => Gen.keyForbiddenChars.contains c.toNat) = true :=
+      List.any_eq_true.2 ⟨47, hm, by simpa using hslash⟩
+    rw [this] at hchars; cases hchars
+  have h59 : (59 : UInt8) ∉ key := by
+    intro hm
+    have : key.any (fun c => Gen.keyForbiddenChars.contains c.toNat) = true :=
+      List.any_eq_true.2 ⟨59, hm, by simpa using hsemi⟩
+    rw [this] at hchars; cases hchars
+  have hnd : key ≠ [46] := by
+    intro e; subst e
+    have : Gen.keyForbiddenWords.contains (([46] : Bytes).map (·.toNat)) = true := by simpa using hdot
+    rw [this] at hwords; cases hwords
+  have hndd : key ≠ [46, 46] := by
+    intro e; subst e
+    have : Gen.keyForbiddenWords.contains (([46, 46] : Bytes).map (·.toNat)) = true := by simpa using hdotdot
+    rw [this] at hwords; cases hwords
+  have hhead : (key.head? == some 47) = false := by
+    cases key with
+    | nil => rfl
+    | cons c cs =>
+      simp only [List.head?_cons, beq_eq_false_iff_ne, ne_eq, Option.some.injEq]
+      intro e; exact h47 (by simp [e])
+  unfold mapperForKey
+  simp only [hne, Bool.false_eq_true, if_false, hhead, splitOn_no_sep 47 key h47, List.getLast?_singleton, Option.getD_some,
+    List.dropLast_singleton, walk, takeWhile_ne_of_not_mem 59 key h59]
+  have hc : key.contains 59 = false := by simpa using h59
+  have h1 : (key == [46]) = false := by simpa using hnd
+  have h2 : (key == [46, 46]) = false := by simpa using hndd
+  simp only [hc, Bool.false_eq_true, if_false, h1, h2]
+  cases isApp p.cur key <;> rfl
+
 /-! ## map upwards, dispatch downwards -/
 
 theorem route_fuel_irrelevant (rx : Rx) (req : Option Bytes) :
